@@ -26,7 +26,7 @@ def run(prop, tier):
     try:
         for cfg, label, expect in [("MC_Writer.cfg", "level B, the code", None),
                                    ("MC_Writer_exit.cfg", "vacuity guard: reader loop exits when the service is marked stopped", "C19_AllWrittenBeforeStopCompletes")]:
-            r = run_tlc("Writer", cfg, timeout=600)
+            r = run_tlc("Writer", cfg, timeout=600, only=expect)
             require_ok(r, cfg)
             rep.add_tlc("%s (%s)" % (cfg, label), r, {"NP": 2, "NM": 2}, expect_violation=expect)
             if expect and r.violated != expect:
